@@ -20,6 +20,7 @@ package results
 import (
 	"bufio"
 	"fmt"
+	"math"
 	"os"
 	"sort"
 )
@@ -90,6 +91,10 @@ func readFileLines(filename string, startLine, endLine int) (string, error) {
 	defer f.Close()
 
 	scanner := bufio.NewScanner(f)
+	// Lines can be longer than bufio.MaxScanTokenSize (minified sources, data
+	// files); without a larger limit the scanner stops there and the lines
+	// that follow can not be read.
+	scanner.Buffer(nil, math.MaxInt32)
 	lines := ""
 	i := 0
 	for scanner.Scan() {
